@@ -9,6 +9,7 @@ dir="/verif/seeded/$id"
 props="$*"
 [ -n "$props" ] || props=$(python3 -c "import json;print(' '.join(json.load(open('$dir/meta.json'))['expected_checks']))")
 git -C /repo diff --quiet || { echo "/repo working tree not clean"; exit 2; }
+rm -rf /verif/.build/evidence_saved; cp -a /verif/evidence /verif/.build/evidence_saved
 git -C /repo apply "$dir/patch.diff" || { echo "patch does not apply"; exit 2; }
 for p in $props; do
   out=$(cd /verif && ./check.sh "$p" quick 2>&1); rc=$?
@@ -16,4 +17,6 @@ for p in $props; do
   echo "$out" | tail -1
 done
 git -C /repo checkout -- .
+# evidence written while the patch was applied describes the patched tree: put the previous files back
+rm -rf /verif/evidence; mv /verif/.build/evidence_saved /verif/evidence
 (cd /verif/harness && cargo +nightly build --release --offline >/dev/null 2>&1)
